@@ -27,14 +27,15 @@ MODELLED_NOT_VERIFIED = [
 ]
 EXPLANATION = ("Theorems about the state machine the driver runs, for arbitrary operation lists: the invariant (member list "
                "duplicate-free, members = keys of the index map, index < counter, the two index maps inverse of each other, memo "
-               "coherent, members are existing Taxon objects) holds in every reachable world (inv_init, inv_step, inv_reachable); "
-               "bits_distinct, masks_distinct, taxon_bitmask_spec, bit_stable + bit_stable_history, counter_monotone(+_history), "
-               "no_reuse, index_never_rebound (also across clear); sort_perm, sort_sorted, sort_stable, sort_ops_spec; "
-               "mask_roundtrip, labels_mask_spec, newick_spec, newick_any_mask (arbitrary masks incl. dead bits), nwk_op_text (the "
-               "printed string), bitstring_spec; labelMatches_iff, lookup_spec, lookup_ops_spec, get_taxa_spec, get_taxa_ops_spec, "
-               "require_spec, remove_label_spec; immutable_spec(+_history); ctor_labels_spec, copy_bits, deepcopy_bits. None is "
-               "_partial. Renderings name taxa up to NEXUS token equivalence (escapeToken is not injective: `c d` and `c_d` can "
-               "both be written c_d); the constructor theorem covers iterables of label strings (mixed iterables: invariant only).")
+               "coherent, members are existing Taxon objects) holds in every reachable world (inv_init, inv_step, inv_reachable, "
+               "index_maps_coherent_reachable, memo_coherent_reachable); bits_distinct, masks_distinct, taxon_bitmask_spec, "
+               "bm_acc_agree, bit_stable(+_history), mask_stable_history, counter_monotone(+_history), no_reuse, "
+               "index_never_rebound (also across clear), other_namespaces_untouched; a _spec theorem for every op of the alphabet: "
+               "mk, ctor_labels/ctor_mixed, add, add_taxa, new, new_taxa, require, rm, del, remove_label, sort_perm/sorted/stable/"
+               "ops, clear, relabel, flags, copy_bits, deepcopy_bits, lookup(+ops), get_taxa(+ops), labels_mask, tbm_btl_ops, "
+               "observers, in_op, refusals; renderings: mask_roundtrip, newick_spec, newick_any_mask, nwk_op_text, bitstring_spec, "
+               "token_equivalence / token_injective / token_injective_no_blank (which labels can share a NEXUS token) and "
+               "newick_names_exactly; immutable_spec(+_history). None is _partial.")
 
 MUTATORS = {"rmlf", "dlf", "mkns", "add", "addtaxa", "new", "newtaxa", "req", "rm", "del", "rml", "dl", "sort", "rev", "clear", "relabel",
             "copy", "shallow", "deep", "setmut", "setcs", "mk"}
